@@ -241,25 +241,26 @@ class Action:
     # Process an event
     def process_event(self, event: ActionEvent) -> None:
         """Processes event and updates action accordingly."""
-        # TODO: This matching can easily break if action names are badly chosen
+        # The events of an action are named after the action: '<Action>Started',
+        # '<Action>...Updated', '<Action>Finished', 'Start<Action>', 'Stop<Action>'
         if "Action" in event.name and event.action_uid == self.uid:
-            if "ActionStarted" in event.name:
+            if event.name == f"{self.name}Started":
                 self.context.update(event.arguments)
                 self.status = ActionStatus.STARTED
-            elif "ActionUpdated" in event.name:
+            elif event.name.startswith(self.name) and event.name.endswith("Updated"):
                 self.context.update(event.arguments)
-            elif "ActionFinished" in event.name:
+            elif event.name == f"{self.name}Finished":
                 self.context.update(event.arguments)
                 self.status = ActionStatus.FINISHED
                 self.flow_scope_count = 0
-            elif "Start" in event.name:
+            elif event.name == f"Start{self.name}":
                 self.context.update(event.arguments)
                 self.status = ActionStatus.STARTING
                 # The Start event comes back as an input event once it was sent out: the
                 # flows that share the action meanwhile must keep their hold on it
                 if self.flow_scope_count == 0:
                     self.flow_scope_count = 1
-            elif "Stop" in event.name:
+            elif event.name == f"Stop{self.name}":
                 self.context.update(event.arguments)
                 self.status = ActionStatus.STOPPING
 
